@@ -336,6 +336,20 @@ def _class_arm_ok(f: Fn, c: ast.Call, rt: str, node: str) -> bool:
                 return False
             if not f.has_guard(c, '%s.has_attribute(%s)' % (w, name_v), True, expand=False):
                 return False
+            # ... and by nothing else inside the loop: every present attribute is processed, whatever its type
+            cn = f.nid(c)
+            extra = []
+            for b in (f.cfg.guard_nodes(cn) if cn is not None else []):
+                if isinstance(b.ast, ast.BoolOp) or not any(x is l for x in _ancestors_list(b.ast)):
+                    continue
+                t, pol = f.alpha.atom(b.ast, b.pol)
+                if pol and (t.endswith('.has_attribute(%s)' % f.alpha.text(l.target.elts[0]))
+                            or (t.startswith('isinstance(%s, ' % node) and 'MappingNode' in t)):
+                    continue
+                extra.append(('' if pol else 'not ') + t)
+            if extra:
+                f._class_arm_extra = extra
+                return False
             # stored back
             st = enclosing_stmt(c)
             res = st.targets[0].id if isinstance(st, ast.Assign) and isinstance(st.targets[0], ast.Name) else None
